@@ -77,6 +77,14 @@ LoadMass(T) ==
              /\ last' = "ok"
   /\ UNCHANGED <<registry, held>>
 
+\* X.init(table, reload=True) of a data module (density, x-ray, radii, structures, form factors): data only, the
+\* identity caches are not touched
+ReloadData(T) ==
+  /\ T \in held
+  /\ act' = A("ReloadData", T, 0, 0, 0, "")
+  /\ last' = "ok"
+  /\ UNCHANGED <<heap, registry, massed, held>>
+
 \* Element.add_isotope(a): the cached isotope, or a new one
 AddIsotope(T, z, a) ==
   /\ T \in registry
@@ -132,6 +140,7 @@ Charges == UNION {IonOf(z) : z \in Zs} \cup {0, 9}
 Next == \/ \E T \in AllTabs : NewTable(T)
         \/ \E T \in AllTabs : LoadMass(T)
         \/ \E T \in AllTabs : DropTable(T)
+        \/ \E T \in AllTabs : ReloadData(T)
         \/ \E T \in AllTabs, z \in Zs : \E a \in CtorIso(z) \cup IsoOf(z) \cup ExtraIso(z) : AddIsotope(T, z, a)
         \/ \E T \in AllTabs, z \in Zs \cup {-1, 999}, a \in AllIso \cup {0, 777} : LookupBase(T, z, a)
         \/ \E T \in AllTabs, z \in Zs, a \in AllIso \cup {0}, q \in Charges : GetIon(T, z, a, q)
